@@ -48,7 +48,8 @@ SETTINGS = [(nm, so) for nm in ('explicit', 'short') for so in (True, False)]
 def bounds(tier):
   if tier == 'quick':
     return dict(pair_families=['S3small'], identity=['A', 'S3'], edits=2)
-  return dict(pair_families=['A', 'S3'], identity=['A', 'S3', 'B'], edits=3)
+  return dict(pair_families=['S3small', 'P'], identity=['A', 'S3', 'B2'],
+              edits=2)
 
 
 c10.FAMILIES['S3small'] = (['cfg', 'list2'], 2, 2)
